@@ -167,7 +167,7 @@ PROPS = {
                      'with unit-propagation pruning up to 26 exported variables and reported as undecided drift beyond'],
     ),
     'C06': dict(
-        theorem_files=['C06', 'GoTypes'],
+        theorem_files=['C06', 'C06l', 'GoTypes'],
         judge='C06', judge_module='Judge.J06', judge_fn='judge_C06',
         cases=dict(quick=3000, thorough=60000),
         rule='conflict-rich CNF with certificate generation on (channel) x learned-clause limit default/4/20: 3-SAT near the '
@@ -238,7 +238,7 @@ PROPS = {
                      'added cardinality/PB constraints mention each variable once'],
     ),
     'C10': dict(
-        theorem_files=['C10', 'Judges'],
+        theorem_files=['C10', 'C06l', 'Judges'],
         judge='C10m', judge_module='Judge.JModel', judge_fn='judge_C10_m',
         cases=dict(quick=6000, thorough=60000),
         rule='base CNF problems (mixed, unit-rich, 3-SAT; 2..9 variables quick, 2..14 thorough) x 1..6 rounds of Assume+Solve; '
